@@ -29,13 +29,18 @@ def fnv(bs):
 
 def oracle(seq_ops, impl):
     """stream oracle applied to the implementation's replies of one sequence; returns index of first violation or None"""
-    kind = None; dc = 0; pending = []; submitted = []; lastL = 0
+    kind = None; dc = 0; pending = []; submitted = []; lastL = 0; script = []; lastLeft = 0
     for i, (o, r) in enumerate(zip(seq_ops, impl)):
         t = o.split()
         if t[0] == 'seq': continue
         if r == 'panic': return i, 'panic inside the adapter contract'
         if r.startswith('HELD-CHANGED'): return i, 'zero-copy ' + r[13:]
-        if len(t) >= 3 and t[2] == 'new': kind = t[0]; continue
+        if len(t) >= 3 and t[2] == 'new':
+            kind = t[0]
+            if kind == 'zr':
+                script = [] if t[3] == '-' else [(int(x.split(':')[0]), x.split(':')[1]) for x in t[3].split(',')]
+                lastLeft = len(script)
+            continue
         res, _, dump = r.partition(' ## ')
         f = dict(x.split('=') for x in dump.split() if '=' in x)
         if kind == 'zr':
@@ -45,6 +50,30 @@ def oracle(seq_ops, impl):
                 need = 1 if opn == 'rbyte' else int(t[3])
                 if need <= lastL:
                     return i, '%s(%d) failed with "%s" although %d bytes the source produced are buffered' % (opn, need, res, lastL)
+            # the source's error is what is surfaced: a waiting call with a valid count fails only with the error (io.EOF as
+            # ErrEOF) of the LAST source read it made - never with the buffer's own "not enough data" while the source has
+            # returned no error (the bytes it goes on producing must become readable), and never with an error the source
+            # did not return during this call
+            if res.startswith('fail') and opn in ('next', 'peek', 'skip', 'rbin', 'rstr', 'rbyte') and 'left' in f:
+                need = 1 if opn == 'rbyte' else int(t[3])
+                left = int(f['left'])
+                used = script[len(script) - lastLeft:len(script) - left]
+                cls = res.split()[1]
+                if need >= 0:
+                    why = None
+                    if cls == 'buf':
+                        why = 'the buffer\'s own error'
+                    elif used:
+                        k, e = used[-1]
+                        want = {'e': 'eof', 'x': 'src'}.get(e, 'negative' if k < 0 else None)
+                        if left == 0 and want is None: want = 'eof'      # the exhausted script answers (0, io.EOF) and consumes no entry
+                        if cls != want: why = 'error class "%s"' % cls
+                    elif not (left == 0 and cls == 'eof'):
+                        why = 'error class "%s"' % cls
+                    if why:
+                        return i, '%s(%d) failed with %s, which the source did not return during the call (%d source reads%s: %s; %d bytes buffered after it)' % (
+                            opn, need, why, len(used), ', then the exhausted script' if left == 0 else '', ','.join('%d:%s' % x for x in used[-20:]) or '-', int(f.get('L', 0)))
+            if 'left' in f: lastLeft = int(f['left'])
             if res.startswith('ok b:') and opn in ('next', 'rbin', 'rstr', 'rbyte', 'until'):
                 _, ln, h = res.split(':'); ln = int(ln)
                 want = fnv([gen_byte(5, dc + k) for k in range(ln)])
